@@ -32,6 +32,7 @@ CONSTANTS
     Coarse,         \* TRUE: a lookup starts only when no other lookup is in progress (sequential multi-client histories)
     MaxFaults,      \* number of corrupted responses (network or cache) per behaviour
     FaultKinds,     \* enabled corruption kinds
+    InitLookups,      \* keys whose lookup files are in the cache from the start: honest responses under the head served at the start (written by an earlier run; the stored head may have been lost or restored from an older copy since)
     InitDiskFull,     \* TRUE: the cache starts with every complete tile of timeline A (left by a client that went further) and nothing else
     PartialMayBeGone, \* TRUE: the server may lack a partial tile whose full tile exists (client falls back to the full tile)
     TileDetail,     \* TRUE: tiles fetched one by one and authenticated; FALSE: hash reads are atomic and honest
@@ -158,7 +159,8 @@ Init ==
     /\ disk = IF InitDiskFull
               THEN LET fulls == {x \in Tiles!AllTiles(H, SizeA) : x.w = Pow2(H)} IN
                    [f \in {TileFile(x) : x \in fulls} |-> TrueTileData("A", CHOOSE x \in fulls : TileFile(x) = f)]
-              ELSE <<>>                   \* function with empty domain
+              ELSE [f \in {LookupFile(k) : k \in InitLookups} |->
+                       LET k == CHOOSE k \in InitLookups : LookupFile(k) = f IN Resp(TrueRec("A", k), GoodHead("A", InitServed["A"]))]
     /\ srv \in {[n |-> [tl \in Timelines |-> InitServed[tl]], grown |-> 0, cur |-> tl0, sw |-> 0, env |-> 0] : tl0 \in ServeTls}
     /\ mem = [c \in Clients |-> EmptyMsg]
     /\ inited = [c \in Clients |-> "no"]
